@@ -50,6 +50,7 @@ def gate_library(rng=None):
     _a, _b, _c = cirq.LineQubit.range(3)
     gl += [cirq.CliffordGate.CNOT, cirq.CliffordGate.CZ, cirq.CliffordGate.SWAP, cirq.CliffordGate.from_op_list([cirq.H(_a), cirq.CNOT(_a, _b), cirq.S(_b)], [_a, _b]),
            cirq.CliffordGate.from_op_list([cirq.CNOT(_c, _a), cirq.S(_a), cirq.H(_b), cirq.CZ(_b, _c)], [_a, _b, _c]), cirq.SingleQubitCliffordGate.X_sqrt, cirq.SingleQubitCliffordGate.H]
+    gl += [cirq.ZPowGate(dimension=3, global_shift=0.5, exponent=0.3), cirq.XPowGate(dimension=3, global_shift=-0.25, exponent=1.5), cirq.ZPowGate(dimension=4, global_shift=1, exponent=2)]  # qudit clock / shift powers with a global shift
     return gl
 
 
@@ -116,7 +117,12 @@ def standin_protocols(tier, seed):
             if not np.allclose(res, want, atol=1e-7):
                 bad("apply_unitary on permuted axes differs from unitary()", gate, axes=axes)
             # (b) decompositions
-            for label, dec in (("decompose_once", cirq.decompose_once(op, None)), ("decompose", cirq.decompose(op))):
+            try:
+                with_phases = cirq.decompose_once(op, None, context=cirq.DecompositionContext(cirq.SimpleQubitManager(), extract_global_phases=True))
+            except Exception as ex:
+                with_phases = None
+                bad(f"decompose_once(extract_global_phases=True) raised {type(ex).__name__}: {ex}", gate, qubits=list(map(repr, qs)))
+            for label, dec in (("decompose_once", cirq.decompose_once(op, None)), ("decompose", cirq.decompose(op)), ("decompose_once(extract_global_phases=True)", with_phases)):
                 if dec is None or not all(cirq.has_unitary(o) for o in dec):
                     continue
                 U, allq = _product_unitary(dec, qs)
